@@ -1,6 +1,7 @@
 import Proofs.Machine.HunkHeaders
 import Proofs.Machine.FileHeaders
 import Proofs.Machine.FileHeaders5
+import Proofs.Machine.MiscSource
 import Proofs.Headers.Paths
 import Proofs.Headers.HunkHeader
 /-!
@@ -455,5 +456,99 @@ theorem binary_two_paths_has_no_file_header :
 example : (match run {} (["diff --git a/x b/x", "old mode ", "new mode 100755"].map mkL) with
      | .ok m => (m.out.filter (fun r => r.kind == .file)).map (fun r => (String.ofList r.text, r.src))
      | .error _ => []) = [("x", 3)] := by decide
+
+-- the handler of `Binary files …` / `Only in …` lines, executed from its source -----------------------------
+
+/-- **`misc_handler_follows_source`**. `handle_diff_header_misc_line` as the Rust source has it — the statement tree
+`Generated.MiscHandler.body` (guards, returns, every write to a field of the state machine, in source order) with the
+predicates `Generated.MiscHandler.tests` and the constant `binaryFileSuffix`, all regenerated by
+`tools/extractors/mischandler.py`, run by the interpreter `MiscHandler.run` (DeltaModel/MiscHandler.lean) — computes,
+for every configuration, every state and every line, exactly `Machine.handleMisc`: the function the model driver executes
+and `one_file_header_per_section_any` is about. A statement added to the Rust function (a write to `current_file_pair`,
+to `handled_diff_header_header_line_file_pair`, to `mode_info`, to a name), dropped from it or moved, or a changed guard,
+changes the generated tree and this theorem no longer builds. -/
+theorem misc_handler_follows_source (cfg : Cfg) (m : M) (l : L) :
+    MiscHandler.handleMiscSrc cfg m l = some (handleMisc cfg m l) :=
+  MiscHandler.handleMiscSrc_eq cfg m l
+
+/-- **`binary_line_only_marks_names`**. A `Binary files … differ` line of a section that has names (from the `diff --git`
+line, file-operation lines or rename / copy lines) is claimed and changes nothing but the two names, which get
+` (binary file)` appended (`/dev/null` does not): no row is written, and the pair of names the header bookkeeping compares
+(`currentPair` against `handledPair`), the pending mode change and the remembered `diff` line stay as they are. -/
+theorem binary_line_only_marks_names (cfg : Cfg) (m : M) (l : L)
+    (hco : cfg.colorOnly = false) (hb : startsWith l.text Markers.binaryFiles = true)
+    (hn : ¬ (m.minusFile = [] ∧ m.plusFile = [])) :
+    MiscHandler.handleMiscSrc cfg m l =
+      some (.ok (true, { m with minusFile := MiscHandler.binaryMarked m.minusFile,
+                                plusFile := MiscHandler.binaryMarked m.plusFile })) :=
+  MiscHandler.binary_line_only_marks_names cfg m l hco hb hn
+
+/-- … and without names (`git diff --no-index`, plain `diff`) the line is shown as it is (after everything held back) and
+the header is marked as dealt with, so that no header without a name is written later. -/
+theorem binary_line_without_names_is_shown (cfg : Cfg) (m : M) (l : L)
+    (hco : cfg.colorOnly = false) (hb : startsWith l.text Markers.binaryFiles = true)
+    (hn : m.minusFile = [] ∧ m.plusFile = []) :
+    MiscHandler.handleMiscSrc cfg m l = some (.ok (true, { emitLineUnchanged m l with handledPair := m.currentPair })) :=
+  MiscHandler.binary_line_without_names_is_shown cfg m l hco hb hn
+
+/-- **`misc_line_never_reopens_header`**. Whatever line the handler claims or declines (`Binary files`, `Only in`, under
+any configuration): if the header of the current section has been written (`handledPair = currentPair`, the test of
+`handle_diff_header_plus_line` and `handle_pending_line_with_diff_name`) it still counts as written afterwards. So a
+section whose header was written at its `rename to` / `copy to` line does not get a second one because a `Binary files`
+line follows (renamed or copied binary file with changes). -/
+theorem misc_line_never_reopens_header (cfg : Cfg) (m m' : M) (l : L) (b : Bool)
+    (e : MiscHandler.handleMiscSrc cfg m l = some (.ok (b, m')))
+    (h : m.handledPair = m.currentPair) : m'.handledPair = m'.currentPair :=
+  MiscHandler.misc_line_never_reopens_header cfg m m' l b e h
+
+/-- the state in which the `Binary files` line of a renamed binary file with changes arrives (after `rename to` and the
+index line: the header has been written), and what the source makes of the line: names marked, bookkeeping untouched -/
+def renamedBinaryHead : List L :=
+  ["diff --git a/img/logo old.png b/img/logo new.png", "similarity index 81%", "rename from img/logo old.png",
+   "rename to img/logo new.png", "index 3333333..4444444 100644"].map mkL
+def renamedBinaryLine : L := mkL "Binary files a/img/logo old.png and b/img/logo new.png differ"
+
+example : (match runFrom {} {} renamedBinaryHead with
+    | .ok m =>
+      m.handledPair == some ("img/logo old.png".toList, "img/logo new.png".toList) && m.handledPair == m.currentPair &&
+      startsWith renamedBinaryLine.text Markers.binaryFiles && !(m.minusFile == [] && m.plusFile == []) &&
+      (match MiscHandler.handleMiscSrc {} m renamedBinaryLine with
+       | some (.ok (true, m')) =>
+         m'.handledPair == m.handledPair && m'.currentPair == m.currentPair && m'.out == m.out &&
+         m'.minusFile == "img/logo old.png (binary file)".toList && m'.plusFile == "img/logo new.png (binary file)".toList
+       | _ => false)
+    | .error _ => false) = true := by decide
+
+/-- exactly this section — rename lines and a `Binary files` line — followed by another section, and at the end of the
+input: it is a `Body.namedBinary` section of `one_file_header_per_section_any`, whose conclusion is one row for it (at its
+`rename to` line), and the model's run gives that -/
+def sRenamedBinaryChanged : Sec2 := .file {
+  d := mkL "diff --git a/img/logo old.png b/img/logo new.png", noise := [mkL "similarity index 81%"],
+  body := .namedBinary (mkL "rename from img/logo old.png") (mkL "rename to img/logo new.png")
+    [mkL "index 3333333..4444444 100644"] renamedBinaryLine }
+def sCopiedBinaryChanged : Sec2 := .file {
+  d := mkL "diff --git a/a.bin b/b.bin", noise := [mkL "similarity index 50%"],
+  body := .namedBinary (mkL "copy from a.bin") (mkL "copy to b.bin") [mkL "index 1111111..2222222 100644"]
+    (mkL "Binary files a/a.bin and b/b.bin differ") }
+
+example : (linesOf2 [sRenamedBinaryChanged]).map (·.text) = (renamedBinaryHead ++ [renamedBinaryLine]).map (·.text) := by decide
+example : ∀ s ∈ [sRenamedBinaryChanged, sModified, sCopiedBinaryChanged, sBinary, sRenamedBinaryChanged], s.WF :=
+  wf_of_all (by decide)
+example : (rowsOf2 {} 0 [sRenamedBinaryChanged, sModified]).map (fun r => (String.ofList r.text, r.src)) =
+    [("renamed: img/logo old.png ⟶   img/logo new.png", 3), ("y", 9)] := by decide
+example : (match run {} (linesOf2 [sRenamedBinaryChanged, sModified]) with
+    | .ok m => m.out.filter (fun r => r.kind == .file) == rowsOf2 {} 0 [sRenamedBinaryChanged, sModified]
+    | .error _ => false) = true := by decide
+example : (rowsOf2 {} 0 [sModified, sRenamedBinaryChanged]).map (fun r => (String.ofList r.text, r.src)) =
+    [("y", 3), ("renamed: img/logo old.png ⟶   img/logo new.png", 10)] := by decide
+example : (match run {} (linesOf2 [sModified, sRenamedBinaryChanged]) with
+    | .ok m => m.out.filter (fun r => r.kind == .file) == rowsOf2 {} 0 [sModified, sRenamedBinaryChanged]
+    | .error _ => false) = true := by decide
+/-- copied binary file with changes, then a binary file (header written late), then the renamed one last: 3 sections, 3 rows -/
+example : (match run {} (linesOf2 [sCopiedBinaryChanged, sBinary, sRenamedBinaryChanged]) with
+    | .ok m => (m.out.filter (fun r => r.kind == .file)).map (fun r => (String.ofList r.text, r.src)) ==
+        [("copied: a.bin ⟶   b.bin", 3), ("img.png (binary file)", 9), ("renamed: img/logo old.png ⟶   img/logo new.png", 12)] &&
+      m.out.filter (fun r => r.kind == .file) == rowsOf2 {} 0 [sCopiedBinaryChanged, sBinary, sRenamedBinaryChanged]
+    | .error _ => false) = true := by decide
 
 end C14
